@@ -42,7 +42,11 @@ def Req.optNat (r : Req) (k : String) : Option Nat :=
   | some s => s.toNat?
   | none => none
 
+/-- stand-in for `f64::INFINITY` in the order-only request streams: larger than every finite `f64` -/
+def BIG : Rat := ((2 : Nat) ^ 1100 : Nat)
+
 def parseRat (s : String) : Option Rat :=
+  if s = "inf" then some BIG else if s = "-inf" then some (-BIG) else
   match s.splitOn "/" with
   | [a] => a.toInt?.map (fun i => (i : Rat))
   | [a, b] => do
